@@ -5,7 +5,7 @@ from .hirq import peel, callee, call_args, last
 from .origin import Body
 from .report import RuleResult
 
-BYTE_LEN = ("core::str::<impl str>::len", "alloc::string::String::len")
+BYTE_LEN = ("core::str::<impl str>::len", "alloc::string::String::len", "core::char::methods::<impl char>::len_utf8")
 CHAR_CONSUMERS = ("take", "skip", "nth", "step_by")
 
 
@@ -13,14 +13,49 @@ def is_byte_len(n):
     return n.get("k") == "MethodCall" and n.get("def") in BYTE_LEN
 
 
+_FIELD_WRITES = {}
+
+
+def field_writes(F, base_ty, name):
+    """[(Body, rhs)] of every `x.name = rhs` / `x.name += rhs` on the ADT named by base_ty, crate-wide."""
+    key = id(F)
+    if key not in _FIELD_WRITES:
+        idx = {}
+        for g in F.fns.values():
+            if g["crate"] not in ("garnish_lang_simple_data", "gfixture"):
+                continue
+            b = None
+            for n in walk(g["hir"]):
+                if n.get("k") in ("Assign", "AssignOp") and peel(n["l"]).get("k") == "Field":
+                    l = peel(n["l"])
+                    b = b or Body(g)
+                    idx.setdefault((l.get("base_ty", "").split("<")[0], l.get("name")), []).append((b, n["r"]))
+        _FIELD_WRITES[key] = idx
+    return _FIELD_WRITES[key].get((base_ty.split("<")[0], name), [])
+
+
 def d1_sites(F, f):
     """Yield (instance, where, msg, is_violation) for every character-count sink in f."""
     body = Body(f)
     n_sink = {}
 
+    def origins_through_fields(expr):
+        out, seen = [], set()
+        work = [(body, expr)]
+        while work:
+            b, e = work.pop()
+            for o in b.origins(e):
+                out.append(o)
+                if o.get("k") == "Field" and o.get("base_ty"):
+                    k = (o["base_ty"].split("<")[0], o.get("name"))
+                    if k not in seen:
+                        seen.add(k)
+                        work.extend(field_writes(F, o["base_ty"], o.get("name")))
+        return out
+
     def sink(kind, expr, where, what):
         n_sink[kind] = n_sink.get(kind, 0) + 1
-        orgs = body.origins(expr)
+        orgs = origins_through_fields(expr)
         bad = [o for o in orgs if is_byte_len(o)]
         inst = "%s#%d" % (kind, n_sink[kind])
         if bad:
@@ -35,6 +70,10 @@ def d1_sites(F, f):
             d = callee(n)
             if d and d.endswith("::BasicData::CharList") and n["args"]:
                 yield sink("CharList-header", n["args"][0], loc(n), "the CharList(n) header (n Char cells follow)")
+        elif k == "Assign" and n["l"].get("k") == "Unary" and n["l"].get("op") == "*":
+            tgt = n["l"]["e"]
+            if any(o.get("k") == "MethodCall" and o.get("m") == "as_char_list_mut" for o in body.origins(tgt)):
+                yield sink("CharList-header-write", n["r"], loc(n), "the CharList(n) header written in place (n Char cells follow)")
     ti = f.get("trait_item", "")
     if ti.endswith("GarnishData::get_char_list_len"):
         rets = [f["hir"]]
